@@ -645,7 +645,7 @@ func RunBoundsControls(r *Report) {
 			}
 		}
 	}
-	r.Floor("provercontrol", 53)
+	r.Floor("provercontrol", 58)
 	_, _ = nBad, nGood
 }
 
